@@ -264,7 +264,40 @@ func genAsm(g *vh.Gen) {
 	}
 }
 
+// genAttach: the attachment number of /serve/mailbox/{name}/{id}/attach/{num}/{file} for messages that exist,
+// with and without attachments: strconv.ParseUint(num, 10, 32) takes digits only — no sign —, any number of
+// leading zeros, values below 2^32. Signed spellings and the values around 2^31 / 2^32 / 2^63 are where a
+// near-synonym (Atoi, ParseInt, another bit size) differs.
+func genAttach(g *vh.Gen) {
+	nums := []string{"-1", "-0", "+1", "+0", "0", "1", "2", "00", "01", "2147483647", "2147483648", "-2147483648", "-2147483649",
+		"4294967295", "4294967296", "4294967297", "9223372036854775807", "9223372036854775808", "-9223372036854775808",
+		"18446744073709551615", "18446744073709551616", "0000000000000000000000000", "000000000000000000000001", "0x1", "1e0", " 1"}
+	for i := 0; i < g.N(12, 300); i++ {
+		h := &hgen{g: g, naming: "local", pool: []string{"alpha", "a.b"}, adds: map[string]int{}}
+		// one message with an attachment (tag%4 = 3), one without
+		for _, tag := range []int{3 + 4*g.Intn(90), 1 + 4*g.Intn(90)} {
+			mb := h.pool[g.Intn(len(h.pool))]
+			date := 1700000000000 + int64(g.Intn(100000000))
+			h.ops = append(h.ops, fmt.Sprintf("a:%s:%d:%d:%d", vh.HS(mb), date, tag, len(buildRaw(tag))))
+			h.adds[mb]++
+		}
+		for j := 0; j < 8+g.Intn(8); j++ {
+			mb := h.pool[g.Intn(len(h.pool))]
+			id := "latest"
+			if h.adds[mb] > 0 && g.Chance(0.6) {
+				id = fmt.Sprintf("k%d", g.Intn(h.adds[mb]))
+			}
+			num := nums[g.Intn(len(nums))]
+			h.ops = append(h.ops, fmt.Sprintf("r:GET:6:%s:%s:tl%s:%s:%s", vh.HS(url.QueryEscape(mb)), vh.HS(id), g.Pick("0", "1", "3"),
+				vh.HS(url.PathEscape(num)), vh.HS("a.bin")))
+		}
+		ops := strings.Join(h.ops, ",")
+		g.Emit("hist", g.Pick("mem", "file"), "local", vh.HS(g.Pick("", "pre")), ops)
+	}
+}
+
 func gen(g *vh.Gen) {
+	genAttach(g)
 	genAsm(g)
 	genGone(g)
 	n := g.N(300, 10000)
